@@ -51,6 +51,7 @@ def run(pid, tier, seed, replay):
         required=("MCBegin", "MCEnd", "MCTrigDone", "MCReturn"),
         scen_fn=scenario, n_random=1500 if quick else 25000, n_hist=1000 if quick else 15000,
         fam_size=5 if quick else 30, shards=4 if quick else 12, label="results")
+    ec.nonrtc_leg(chk, rng, 250 if quick else 4000, shards=2 if quick else 8)
     chk.coverage["rule"] = ("0-3 before x 0-3 on callbacks per transition in every style/provider, return values None / unique "
                             "truthy and falsy list objects, event-scoped callbacks on multi-event transitions, internal and self "
                             "transitions, tolerated unknown events, both engines; other groups return markers")
